@@ -33,6 +33,10 @@ class ScriptSock(socket.socket):
         self._events.append(["recv", len(d)])
         return d
 
+    def send(self, data, *a):
+        self._events.append(["send", list(bytes(data))])
+        return len(data)
+
 
 class RecSock(socket.socket):
     """records what a real socket's recv() returns"""
@@ -72,6 +76,15 @@ def obs_wrapper(case):
     try:
         w = SocketWrapper(sock, bufsize=case["bufsize"])
         for op, n in case["calls"]:
+            if op == "write":
+                data = bytes((0xB5, 0x62, n % 256)) * (n % 5)
+                events.append(["call", op, n, list(data)])
+                try:
+                    r = w.write(data)
+                    events.append(["ret", [r] if isinstance(r, int) else [-1]])
+                except Exception as ex:  # noqa: BLE001
+                    events.append(["ret", [-2, len(type(ex).__name__)]])
+                continue
             events.append(["call", op, n])
             try:
                 r = w.read(n) if op == "read" else w.readline()
